@@ -90,6 +90,12 @@ extern "C"
 
     void channel_accept_writes(struct channel* self, uint32_t tf);
 
+    /// @brief Rewinds an idle channel to its origin.
+    /// Does nothing unless every reader has consumed everything that was
+    /// committed and no reader holds a mapped region. Afterwards a reader that
+    /// joins later cannot see data that was written before the rewind.
+    void channel_rewind(struct channel* self);
+
     struct slice channel_read_map(struct channel* self,
                                   struct channel_reader* reader);
 
